@@ -89,6 +89,8 @@ type ordCase struct {
 	Full bool   `json:"full"`
 	Idx  []int  `json:"idx"`
 	Law  string `json:"law,omitempty"`
+	// HighFirst: ids descend in printed order and the first signature occurs again later.
+	HighFirst bool `json:"high_first,omitempty"`
 }
 
 func hasUserCode(s *stack.Stack) bool {
@@ -122,6 +124,12 @@ func ordEvalSnapshot(r *core.Run, u []ordVariant, c *ordCase) {
 		sigs = append(sigs, &u[k].Sig)
 	}
 	s := gen.MkSnapshot(sigs)
+	if c.HighFirst {
+		// the crashing goroutine is printed first but does not have the lowest id
+		for i, g := range s.Goroutines {
+			g.ID = len(s.Goroutines) - i
+		}
+	}
 	var a *stack.Aggregated
 	var panicked any
 	func() {
@@ -145,6 +153,14 @@ func ordEvalSnapshot(r *core.Run, u []ordVariant, c *ordCase) {
 	}
 	if !a.Buckets[0].First {
 		report("first-bucket-not-first", "the bucket holding the crashing goroutine is not presented first")
+		return
+	}
+	holds := false
+	for _, id := range a.Buckets[0].IDs {
+		holds = holds || id == s.Goroutines[0].ID
+	}
+	if !holds {
+		report("first-bucket-not-first", fmt.Sprintf("the first bucket (ids %v) does not hold the crashing goroutine %d", a.Buckets[0].IDs, s.Goroutines[0].ID))
 		return
 	}
 	for i := 1; i < len(a.Buckets); i++ {
@@ -227,6 +243,10 @@ func runC13(r *core.Run) {
 		c := &ordCase{Full: full}
 		for len(c.Idx) < k {
 			c.Idx = append(c.Idx, rr.Intn(n))
+		}
+		if i%3 == 0 {
+			c.HighFirst = true
+			c.Idx = append(c.Idx, c.Idx[0]) // the crashing goroutine's signature again, with a lower id
 		}
 		ordEvalSnapshot(r, u, c)
 		r.Distinct(core.HashStr(fmt.Sprint(c.Idx)))
